@@ -2338,7 +2338,7 @@ func matchHosts(requestHost string, allowed []string) bool {
 			if suffix == "" || requestHost == suffix {
 				continue
 			}
-			if strings.HasSuffix(requestHost, "."+suffix) {
+			if strings.HasSuffix(requestHost, "."+suffix) && len(requestHost) > len(suffix)+1 {
 				return true
 			}
 		}
